@@ -60,10 +60,6 @@ def one(job):
     for k, v in now.items():
         if v in (VIOL, ERR) and base.get(k) != v:
             ch.append((v, k[0], k[1]))
-    nowids = {(k[0], k[1]) for k in now}
-    for k, v in base.items():
-        if (k[0], k[1]) not in nowids:
-            ch.append(('GONE', k[0], k[1]))
     return prop, st, sorted(set(ch))
 
 
